@@ -40,6 +40,7 @@ FIXTURE = [
 SETUP = {"std": FIXTURE}
 WATCHDOG_MS = 15000          # per case in the sweep
 CONFIRM_MS = 60000           # a hang / crash is confirmed alone with this bound
+VMEM_MB = 1024               # address-space limit of a child: a runaway allocation aborts the child quickly and deterministically
 NT_SHAPE = re.compile(r'^<[A-Z][A-Za-z]*>$')
 
 
@@ -113,69 +114,155 @@ def shape_of(case):
     return "stmt:" + robust.stmt_kind(case["ops"][-1].get("sql", ""))
 
 
+FN_CALL = re.compile(r"([A-Za-z_][A-Za-z_0-9]*) [(]")
+NOT_FN = {"VALUES", "IN", "EXISTS", "AS", "FROM", "SELECT", "WHERE", "AND", "OR", "NOT", "ON", "USING", "OVER", "FILTER", "CHECK", "KEY", "REFERENCES", "UNIQUE",
+          "INTO", "SET", "ANY", "ALL", "SOME", "BY", "THEN", "ELSE", "WHEN", "LATERAL", "JOIN", "TABLE", "EXPLAIN", "CONFLICT", "DECIMAL", "NUMERIC", "VARCHAR", "CHAR", "VECTOR"}
+
+
+def blame(case, det):
+    """spec vocabulary of the (minimised) failing call: nesting shape, or the functions it applies, or its first keyword"""
+    if case.get("deep"):
+        return "deep:" + case["deep"][0]
+    at = det.get("at")
+    op = case["ops"][at] if isinstance(at, int) and at < len(case["ops"]) else case["ops"][-1]
+    sql = op.get("sql")
+    if sql is None:
+        return op["k"] + (":" + op["api"] if "api" in op else "")
+    fns = sorted({m.group(1).upper() for m in FN_CALL.finditer(sql)} - NOT_FN)
+    return "+".join(fns[:4]) if fns else robust.first_keyword(sql)
+
+
 def signature(case, cls, det):
     op = case["ops"][det["at"]] if isinstance(det.get("at"), int) and det["at"] < len(case["ops"]) else None
     if case["src"].startswith("api"):
         where = "api:" + (op["k"] if op else str(det.get("at")))
-        if op and op.get("sql") is not None and op["k"] in ("exec", "query"):
+        if op and op.get("sql") is not None and op["k"] in ("exec", "query", "params", "prepared", "prepare"):
             where = "api:" + robust.stmt_kind(op["sql"])
     else:
         where = robust.stmt_kind(case["ops"][-1]["sql"])
     if cls == "panic":
         return "panic|%s|%s|%s" % (det["site"], robust.msg_class(det["panic"]), where)
     if cls == "crash":
-        return "crash|%s|%s" % (robust.crash_name(det), shape_of(case))
+        return "crash|%s|%s" % (robust.crash_name(det), blame(case, det))
     if cls == "hang":
-        return "hang|%s" % shape_of(case)
+        return "hang|%s" % blame(case, det)
     return "%s|%s" % (cls, where)
 
 
-def confirm_and_minimise(chk, case, cls, det, budget_rounds=30):
-    """Re-run the case alone (long watchdog); if it fails the same way, shrink it. Returns (confirmed, minimal case, det)."""
-    base_sig = signature(case, cls, det)
-    counter = [0]
+def same_defect(sig_a, sig_b):
+    """two observations are the same defect when class and site (panic) / class (crash, hang) agree; used while shrinking"""
+    a, b = sig_a.split("|"), sig_b.split("|")
+    if a[0] != b[0]:
+        return False
+    return a[1] == b[1] if a[0] == "panic" else True
 
-    def run_variants(variants, wd):
-        cs = []
-        for v in variants:
-            counter[0] += 1
-            cs.append({"id": "m%d" % counter[0], "tpl": case["tpl"], "ops": v})
-        res = robust.run_cases(cs, SETUP, jobs=min(8, max(1, len(cs))), watchdog_ms=wd, tag="min")
-        outs = []
-        for c, v in zip(cs, variants):
-            k, d = robust.classify(res[c["id"]])
-            probe = dict(case, ops=v)
-            outs.append((k, d, signature(probe, k, d) if k in ("panic", "crash", "hang") else None))
-        return outs
 
-    (k, d, s), = run_variants([case["ops"]], CONFIRM_MS)
-    if s is None or s.split("|")[0:2] != base_sig.split("|")[0:2]:
-        return False, case, det
-    cls, det = k, d
-    wd = CONFIRM_MS if cls == "hang" else WATCHDOG_MS
+_tag = [0]
+_tag_lock = threading.Lock()
+
+
+def _run_variants(case, variants, wd, jobs=6):
+    with _tag_lock:
+        _tag[0] += 1
+        tag = "min%d" % _tag[0]
+    cs = [{"id": "m%d" % i, "tpl": case["tpl"], "ops": v} for i, v in enumerate(variants)]
+    res = robust.run_cases(cs, SETUP, jobs=min(jobs, max(1, len(cs))), watchdog_ms=wd, vmem_mb=VMEM_MB, tag=tag)
+    outs = []
+    for c, v in zip(cs, variants):
+        k, d = robust.classify(res[c["id"]])
+        outs.append((k, d, signature(dict(case, ops=v), k, d) if k in ("panic", "crash", "hang") else None))
+    return outs
+
+
+def minimise(case, cls, det, budget_rounds=25):
+    """Shrink a confirmed failing case: drop whole calls, then tokens of the failing SQL text (bounded effort)."""
+    base = signature(case, cls, det)
+    wd = WATCHDOG_MS
 
     def same(out):
-        return out[2] is not None and out[2].split("|")[0:2] == base_sig.split("|")[0:2]
+        return out[2] is not None and same_defect(out[2], base)
     ops = list(case["ops"])
     if len(ops) > 1:
-        # drop whole calls first (keep the order)
-        ops = robust.ddmin(ops, lambda cands: [same(o) for o in run_variants(cands, wd)], max_rounds=10)
-    # then shrink the SQL text of the failing call token by token (only the grammar cases are token lists;
-    # api SQL is split on blanks, which is the same tokenisation for the statements the spec uses)
+        ops = robust.ddmin(ops, lambda cands: [same(o) for o in _run_variants(case, cands, wd)], max_rounds=8)
     idx = next((i for i in range(len(ops) - 1, -1, -1) if ops[i].get("sql")), None)
-    if idx is not None and cls != "hang" and not case.get("deep"):
+    if idx is not None and not case.get("deep"):
         toks = ops[idx]["sql"].split(" ")
         if len(toks) <= 400:
             def batch(cands):
                 vs = [ops[:idx] + [dict(ops[idx], sql=" ".join(c))] + ops[idx + 1:] for c in cands]
-                return [same(o) for o in run_variants(vs, wd)]
+                return [same(o) for o in _run_variants(case, vs, wd)]
             toks = robust.ddmin(toks, batch, max_rounds=budget_rounds)
             ops = ops[:idx] + [dict(ops[idx], sql=" ".join(toks))] + ops[idx + 1:]
-    (k, d, s), = run_variants([ops], wd)
-    small = dict(case, ops=ops)
+    (k, d, s), = _run_variants(case, [ops], CONFIRM_MS)
     if same((k, d, s)):
-        return True, small, d
-    return True, case, det
+        return dict(case, ops=ops), k, d
+    return case, cls, det
+
+
+def triage(chk, cands, counts_by_sig):
+    """confirm every first-seen divergence alone (one parallel batch, long watchdog), shrink the confirmed ones"""
+    items = list(cands.items())
+    if not items:
+        return {}, []
+    confirmed, unconfirmed, work = {}, [], []
+    # a panic is an in-process, deterministic observation: when its signature is already a recorded finding there is
+    # nothing to confirm or to shrink. Everything else is re-run alone (a dead or silent child may be the machine).
+    recheck = []
+    for sig, (c, cls, det) in items:
+        if cls in ("panic", "crash") and chk.findings.known(sig):
+            rep = {"signature": sig, "class": cls, "detail": det, "ops": c["ops"] if len(json.dumps(c["ops"])) < 3000 else "(long)", "tpl": c["tpl"],
+                   "src": c["src"], "allowed": c["allowed"], "cases_with_this_signature_in_sweep": counts_by_sig[sig]}
+            confirmed[sig] = rep
+            for _ in range(counts_by_sig[sig]):
+                chk.classify(sig, rep)
+        elif cls == "panic":
+            work.append((sig, c, cls, det))
+        else:
+            recheck.append((sig, (c, cls, det)))
+    for i in range(0, len(recheck), 6):
+        part = recheck[i:i + 6]
+        cs = [{"id": "k%d" % (i + n), "tpl": c["tpl"], "ops": c["ops"]} for n, (sig, (c, cls, det)) in enumerate(part)]
+        res = robust.run_cases(cs, SETUP, jobs=len(cs), watchdog_ms=CONFIRM_MS, vmem_mb=VMEM_MB, tag="confirm")
+        for (sig, (c, cls, det)), cc in zip(part, cs):
+            k2, d2 = robust.classify(res[cc["id"]])
+            if k2 in c["allowed"]:
+                unconfirmed.append(sig)
+            else:
+                work.append((sig, c, k2, d2))
+    results = {}
+
+    def job(w):
+        sig, c, k, d = w
+        try:
+            results[sig] = minimise(c, k, d)
+        except Exception as e:
+            results[sig] = e
+    ths = []
+    for w in work:
+        t = threading.Thread(target=job, args=(w,))
+        ths.append(t)
+    for i in range(0, len(ths), 5):
+        for t in ths[i:i + 5]:
+            t.start()
+        for t in ths[i:i + 5]:
+            t.join()
+    for sig, c, k, d in work:
+        r = results[sig]
+        if isinstance(r, Exception):
+            raise vlib.ToolError("minimisation failed for %s: %s" % (sig, r))
+        small, k2, d2 = r
+        sig2 = signature(small, k2, d2)
+        rep = {"signature": sig2, "class": k2, "detail": d2, "ops": small["ops"], "tpl": small["tpl"], "fixture": "lib/checks/c22.py FIXTURE",
+               "original_ops": c["ops"] if len(json.dumps(c["ops"])) < 3000 else "(long)", "src": c["src"], "allowed": c["allowed"],
+               "first_seen_as": sig, "cases_with_this_signature_in_sweep": counts_by_sig[sig]}
+        if len(json.dumps(rep["ops"])) > 6000:
+            rep["ops_note"] = "long input; regenerate from the spec: DeepForm%s" % json.dumps(c.get("deep") or c.get("trail", [])[:6])
+            rep["ops"] = [dict(o, sql=o["sql"][:300] + " ...(%d chars)" % len(o["sql"])) if len(o.get("sql", "")) > 300 else o for o in rep["ops"]]
+            rep["deep"] = c.get("deep")
+        confirmed.setdefault(sig2, rep)
+        for _ in range(counts_by_sig[sig]):
+            chk.classify(sig2, rep)
+    return confirmed, unconfirmed
 
 
 def run(chk):
@@ -184,7 +271,7 @@ def run(chk):
     chk.assumptions += [
         "harness build profile: release, panic=unwind, overflow-checks=off, debug-assertions=off (what a release user executes, except panic=abort)",
         "each case runs on a private copy of a fixture database (t: one column per type, 4 rows; u: 5 rows, PK + UNIQUE + index; e: vectors + HNSW index)",
-        "child process per worker, main-thread stack 8 MiB, address space limited to 6 GiB; hang = no return within %d s (confirmed alone with %d s)" % (WATCHDOG_MS // 1000, CONFIRM_MS // 1000),
+        "child process per worker, main-thread stack 8 MiB, address space limited to 1 GiB; hang = no return within %d s (confirmed alone with %d s)" % (WATCHDOG_MS // 1000, CONFIRM_MS // 1000),
         "only derivations of Grammar.tla / ApiCalls.tla and <=2 token-level mutations are explored; arbitrary byte strings are not"]
     vlib.build_harness(); chk.mark("build")
 
@@ -192,6 +279,8 @@ def run(chk):
     w = 4
     jobs = {
         "bfs": dict(module="MC_Grammar.tla", cfg=_cfg("Gen_Grammar_bfs.cfg", Budget=2 if thorough else 1), timeout=3000 if thorough else 900, workers=8 if thorough else w),
+        "val": dict(module="MC_Grammar.tla", cfg=_cfg("Gen_Grammar_val.cfg", VBudget=2 if thorough else 1) if not thorough else
+                    _cfg("Gen_Grammar_val.cfg", VBudget=2, Starts='{"<Stmt>"}'), timeout=3000 if thorough else 900, workers=8 if thorough else w),
         "mut": dict(module="MC_Grammar.tla", cfg=_cfg("Gen_Grammar_mut.cfg", Budget=1 if thorough else 0), timeout=3000 if thorough else 900, workers=w),
         "sim": dict(module="MC_Grammar.tla", cfg=os.path.join(vlib.SPEC, "Gen_Grammar_sim.cfg"), timeout=3000 if thorough else 900, workers=1,
                     simulate="num=%d" % (6000 if thorough else 500), seed=chk.seed, extra=["-depth", "200"]),
@@ -206,7 +295,7 @@ def run(chk):
     # ------------------------------------------------------------------ cases
     cases, seen = [], set()
     gen_counts = {}
-    for src in ("bfs", "mut", "sim"):
+    for src in ("bfs", "val", "mut", "sim"):
         vals = gen[src]["emitted"]
         gen_counts[src] = len(vals)
         for v in vals:
@@ -238,9 +327,10 @@ def run(chk):
     by = collections.defaultdict(list)
     for c in cases:
         by[c["src"]].append(c)
-    lim = dict(bfs=60000, mut=40000, sim=10 ** 6) if thorough else dict(bfs=9000, mut=3500, sim=10 ** 6)
+    lim = dict(bfs=60000, val=60000, mut=40000, sim=10 ** 6) if thorough else dict(bfs=9000, val=6000, mut=3500, sim=10 ** 6)
     chosen = []
     chosen += take(by["bfs"], lim["bfs"], lambda c: (c["frame"], c["trail"][-1][0] if c["trail"] else "-"))
+    chosen += take(by["val"], lim["val"], lambda c: (c["frame"], c["trail"][-1][0] if c["trail"] else "-"))
     chosen += take(by["mut"], lim["mut"], lambda c: (c["frame"], tuple(c["mutkinds"])))
     chosen += by["sim"]
     chosen_api = take(api_all, 40000 if thorough else 3000, lambda c: (tuple(c["last_sit"]), c["lastk"]))
@@ -248,7 +338,7 @@ def run(chk):
     byid = {c["id"]: c for c in allc}
 
     # ------------------------------------------------------------------ execution
-    res = robust.run_cases([harness_view(c) for c in allc], SETUP, watchdog_ms=WATCHDOG_MS, tag="c22", timeout=6000)
+    res = robust.run_cases([harness_view(c) for c in allc], SETUP, watchdog_ms=WATCHDOG_MS, vmem_mb=VMEM_MB, tag="c22", timeout=6000)
     chk.mark("execute")
 
     stats = collections.Counter()
@@ -289,24 +379,7 @@ def run(chk):
                 cands[sig] = (c, cls, det)
 
     # ------------------------------------------------------------------ triage of divergences
-    confirmed = {}
-    unconfirmed = []
-    for sig, (c, cls, det) in cands.items():
-        ok, small, d2 = confirm_and_minimise(chk, c, cls, det)
-        if not ok:
-            unconfirmed.append(sig)
-            continue
-        sig2 = signature(small, cls, d2)
-        rep = {"signature": sig2, "class": cls, "detail": d2, "ops": small["ops"], "tpl": small["tpl"], "fixture": "lib/checks/c22.py FIXTURE",
-               "original_ops": c["ops"] if len(json.dumps(c["ops"])) < 4000 else "(long)", "src": c["src"], "allowed": c["allowed"],
-               "cases_with_this_signature_in_sweep": counts_by_sig[sig]}
-        if len(json.dumps(rep["ops"])) > 6000:
-            rep["ops_note"] = "long input; regenerate from spec: " + json.dumps(c.get("deep") or c["trail"][:6])
-            rep["ops"] = [dict(o, sql=o["sql"][:300] + " ...(%d chars)" % len(o["sql"])) if len(o.get("sql", "")) > 300 else o for o in rep["ops"]]
-            rep["deep"] = c.get("deep")
-        confirmed.setdefault(sig2, rep)
-        for _ in range(counts_by_sig[sig]):
-            chk.classify(sig2, rep)
+    confirmed, unconfirmed = triage(chk, cands, counts_by_sig)
     chk.mark("triage")
     if unconfirmed:
         chk.notes.append("not reproduced when re-run alone (load-dependent, not reported): " + "; ".join(unconfirmed[:8]))
@@ -319,11 +392,11 @@ def run(chk):
         raise vlib.ToolError("vacuous generator: only %.0f%% of the unmutated sentences execute successfully (need >= 30%%)" % (100 * ratio))
     need_sits = {"use_after_close", "nested_begin", "rollback_without_txn", "commit_without_txn", "rollback_to_unknown_savepoint", "release_unknown_savepoint",
                  "duplicate_savepoint", "too_few_params", "too_many_params", "param_type_mismatch", "prepared_reuse", "ddl_in_txn", "close_in_txn",
-                 "no_such_handle", "batch_api", "pragma", "dml_on_dropped_table"}
+                 "no_such_handle", "batch_api", "pragma", "dml_on_dropped_table", "read_of_marker_like_value"}
     miss = sorted(need_sits - set(sits_seen))
     if miss:
         raise vlib.ToolError("API generator never reached the situations %s" % miss)
-    frames = {c["frame"] for c in chosen if c["src"] == "bfs"}
+    frames = {c["frame"] for c in chosen if c["src"] == "bfs" and c["frame"].startswith("<Stmt>")}
     if len(frames) < 26:
         raise vlib.ToolError("only %d of 26 statement frames generated" % len(frames))
     mk = collections.Counter(k for c in chosen for k in c["mutkinds"])
@@ -365,8 +438,12 @@ def replay(chk, path):
     vlib.build_harness()
     ops = rep["ops"]
     if rep.get("deep") and rep.get("ops_note"):
-        raise vlib.ToolError("the stored case was abbreviated; regenerate it from the spec: %s" % rep["ops_note"])
-    res = robust.run_cases([{"id": "r", "tpl": rep.get("tpl", "std"), "ops": ops}], SETUP, jobs=1, watchdog_ms=CONFIRM_MS, tag="replay")
+        # the stored text was abbreviated: regenerate the sentence from the specification
+        shape, n = rep["deep"]
+        g = vlib.tlc_emit("MC_Grammar.tla", _cfg("Gen_Grammar_bfs.cfg", Budget=0, Starts='{"<Deep>"}', DeepN="{%d}" % n), timeout=600, workers=1)
+        v = next(x for x in g["emitted"] if x["trail"][0][1] == shape)
+        ops = [{"k": "exec", "sql": robust.render(v["toks"])}]
+    res = robust.run_cases([{"id": "r", "tpl": rep.get("tpl", "std"), "ops": ops}], SETUP, jobs=1, watchdog_ms=CONFIRM_MS, vmem_mb=VMEM_MB, tag="replay")
     cls, det = robust.classify(res["r"])
     print("ops:", json.dumps(ops)[:2000])
     print("allowed:", rep.get("allowed", ["ok", "err"]), "observed:", cls, json.dumps(det)[:600])
